@@ -8,6 +8,7 @@ with the `uint64` wrap and ring compaction) — answers like the reference filte
 history of counters below `2^63`, of any length and with jumps of any size.
 -/
 import HopModel.Proofs.ReplaySim
+import HopModel.Proofs.ReplayU64
 import HopModel.Generated.Consts
 namespace Replay
 
@@ -53,6 +54,45 @@ theorem C14_no_wrap (w : Win) (q : Nat) (hq : q < 2 ^ 63) :
     checkU w q = check w q ∧ markU w q = mark w q := by
   have hb : q + 448 < u64 := by unfold u64; omega
   exact ⟨checkU_eq w hb, markU_eq w hb⟩
+
+/-! ### the machine-level transcription -/
+
+section Machine
+open ReplayU64
+
+theorem abs_init : ReplayU64.abs ReplayU64.init = Replay.init := by
+  simp only [ReplayU64.abs, ReplayU64.init, Replay.init]
+  congr 1
+  funext j
+  simp [ReplayU64.absB, Array.getD_eq_getD_getElem?, Array.getElem?_replicate]
+  split <;> rfl
+
+/-- running the machine over a history -/
+def runW (w : WinU) (hist : List UInt64) : WinU := hist.foldl ReplayU64.accept w
+
+theorem machine_sim (w : WinU) (hs : w.blocks.size = 8) (acc : List Nat) (h : Sim (ReplayU64.abs w) acc)
+    (hist : List UInt64) (hb : ∀ q ∈ hist, q.toNat < 2 ^ 63) :
+    (runW w hist).blocks.size = 8 ∧ Sim (ReplayU64.abs (runW w hist)) (specRun acc (hist.map UInt64.toNat)) := by
+  induction hist generalizing w acc with
+  | nil => exact ⟨hs, h⟩
+  | cons q qs ih =>
+    simp only [runW, List.foldl_cons, List.map_cons, specRun]
+    apply ih (ReplayU64.accept w q) (accept_size w hs q)
+    · rw [accept_refines w hs q]
+      exact sim_step_plain h (hb q (by simp))
+    · intro x hx; exact hb x (by simp [hx])
+
+/-- **C14, at the level of the Go code's own types.** The transcription of `Check`/`Mark` with
+`uint64` words, shifts and masks (`Model/ReplayU64.lean`) answers, after every history of counters
+below 2^63, exactly like the reference filter. -/
+theorem C14_machine_accept_iff (hist : List UInt64) (hb : ∀ q ∈ hist, q.toNat < 2 ^ 63) (q : UInt64)
+    (hq : q.toNat < 2 ^ 63) :
+    ReplayU64.check (runW ReplayU64.init hist) q = specAccepts (specRun [] (hist.map UInt64.toNat)) q.toNat := by
+  have hsim := machine_sim ReplayU64.init (by simp [ReplayU64.init]) [] (by rw [abs_init]; exact sim_init) hist hb
+  rw [check_refines]
+  exact sim_check hsim.2 hq
+
+end Machine
 
 /-! ### non-vacuity: a concrete history that straddles blocks, jumps past the ring and revisits
 the window edge -/
